@@ -2,6 +2,7 @@ package eval
 
 import (
 	"context"
+	"errors"
 	"fmt"
 	"io"
 	"os"
@@ -204,6 +205,9 @@ func EvalString(this any, code string, emptyEnv bool) (object.Object, error) {
 	program = p.ParseProgram()
 	if len(p.Errors()) != 0 {
 		return object.NULL, fmt.Errorf("parsing error: %v", p.Errors())
+	}
+	if p.ContinuationNeeded() { // e.g. unterminated block comment: the tree has missing nodes.
+		return object.NULL, errors.New("parsing error: incomplete input")
 	}
 	evalState, ok := this.(*State)
 	if emptyEnv {
